@@ -18,7 +18,7 @@ Every theorem quantifies over all expressions of the path fragment, all heaps
 (any size, sharing, repetition, cycles), all getters satisfying the contract,
 all sibling-reader placements and all histories.
 -/
-import TraitsVerif.Lemmas.PropertyCount
+import TraitsVerif.Lemmas.PropertyExamples
 import TraitsVerif.Generated.PropertyState
 namespace TraitsVerif.Props.C12
 open TraitsVerif TraitsVerif.Model.Property
@@ -28,8 +28,9 @@ variable {Val : Type}
 /-! ## The tie to the source: the functions the model transcribes are unchanged -/
 
 /-- What `harness/translate/propstate.py` reads from the working tree
-(`_create_property_observe_state`'s state dict and handler, `cached_property`'s
-wrapper, the legacy listener, `_init_trait_observers` / `_post_init…`, the
+(`_create_property_observe_state` with its state dict and handler, the blocks of
+`update_traits_class_dict` that wire `observe` / `depends_on` / `cached`, the
+metadata `traits.Property` derives from the getter, `cached_property`'s wrapper, the legacy listener, `_init_trait_observers` / `_post_init…`, the
 life-cycle order of `__setstate__`, `clone_traits`, C `has_traits_init`, and
 the calls of C `trait_property_changed`) is the text the model was written
 against.  In particular `post_init = False` and observers are installed before
@@ -38,6 +39,9 @@ theorem C12_source_as_modelled :
     Generated.PropertyState.postInit = Source.postInit
     ∧ Generated.PropertyState.dispatch = Source.dispatch
     ∧ Generated.PropertyState.handlerSrc = Source.handlerSrc
+    ∧ Generated.PropertyState.observeStateSrc = Source.observeStateSrc
+    ∧ Generated.PropertyState.wiringSrc = Source.wiringSrc
+    ∧ Generated.PropertyState.propertyMetadataSrc = Source.propertyMetadataSrc
     ∧ Generated.PropertyState.cacheNameSrc = Source.cacheNameSrc
     ∧ Generated.PropertyState.cachedPropertySrc = Source.cachedPropertySrc
     ∧ Generated.PropertyState.legacyListenerSrc = Source.legacyListenerSrc
@@ -47,7 +51,7 @@ theorem C12_source_as_modelled :
     ∧ Generated.PropertyState.cloneCalls = Source.cloneCalls
     ∧ Generated.PropertyState.cInitOrder = Source.cInitOrder
     ∧ Generated.PropertyState.cPropertyChangedCalls = Source.cPropertyChangedCalls :=
-  ⟨rfl, rfl, rfl, rfl, rfl, rfl, rfl, rfl, rfl, rfl, rfl, rfl⟩
+  ⟨rfl, rfl, rfl, rfl, rfl, rfl, rfl, rfl, rfl, rfl, rfl, rfl, rfl, rfl, rfl⟩
 
 /-- The observer of a property is not a `post_init` observer. -/
 theorem C12_observer_not_post_init : Generated.PropertyState.postInit = false := rfl
@@ -391,15 +395,33 @@ theorem C12_getter_raises_in_handler (P : Env Val) (s : St Val) (e : Exc)
     exact ⟨h2, by simp⟩
   · exact ⟨hc0, by simp⟩
 
-/-! ## Non-vacuity: the hypotheses are satisfiable on non-trivial instances -/
+/-! ## The instances the correspondence check runs -/
 
-/-- `Property(observe="kids.items.value")` with the getter `sum(k.value for k in self.kids)`. -/
-def exKids : Env Int :=
-  { E := [⟨[.kids], .scalar .value⟩], root := 0,
-    G := fun _ h => .ok (((h 0).kids.map (fun k => (h k).value)).foldl (· + ·) 0),
-    fires := firesSpec [⟨[.kids], .scalar .value⟩] 0, staticL := true }
+/-- The getters the driver instantiates satisfy the user contract for every
+expression, so with `fires := firesSpec` every hypothesis of the theorems
+above holds of exactly the environments that are compared with the real code. -/
+theorem C12_canonical_getters_depend_only (E : Expr) (root : Id) (undef : Bool) :
+    DependsOnly (viewGetter E root) E root ∧ DependsOnly (sumGetter E root undef) E root :=
+  ⟨dependsOnly_foldExpr _ _ E root (fun l => "&".intercalate l),
+   dependsOnly_foldExpr sumLeaf _ E root
+     (fun l => if undef && l.foldl (· + ·) 0 % 5 == 3 then "U" else toString (l.foldl (· + ·) 0))⟩
 
-def exKidsG : Heap → Int := fun h => ((h 0).kids.map (fun k => (h k).value)).foldl (· + ·) 0
+/-- Closed form for those environments: no assumption left but the interface
+one (`fires` is the specification). -/
+theorem C12_never_stale_canonical (P : Env String) (hf : P.fires = firesSpec P.E P.root)
+    (hG : PartialGetter P.G (viewGetter P.E P.root)) (hp : P.postInit = false)
+    (h0 : Heap) (steps : List Step) :
+    Inv P (viewGetter P.E P.root) (run P { heap := h0 } steps) :=
+  C12_never_stale_from_new P _ hG (C12_canonical_getters_depend_only P.E P.root false).1
+    (firesSpec_sound P hf) hp h0 steps
+
+/-! ## Non-vacuity: the hypotheses are satisfiable on non-trivial instances
+
+Fixtures (`Lemmas/PropertyExamples.lean`): `exKids` is
+`Property(observe="kids.items.value")` with a class-level listener and the getter
+`exKidsG = sum(k.value for k in self.kids)`; `exKidsFinal` is the state after
+`kids = [1, 2, 1]` (values 3, 5), a read, one occurrence of node 1 removed in place,
+node 1 bumped to 4. -/
 
 example : PureGetter exKids.G exKidsG := fun _ _ => rfl
 example : ObserveSound exKids ∧ ObserveTight exKids := ⟨fun _ _ h => h, fun _ _ _ h => h⟩
@@ -410,17 +432,20 @@ example : DependsOnly exKidsG exKids.E exKids.root := by
   have := this h h' hv
   simpa [foldExpr, foldView, targets, content, Obj.get, Link.slot, Content.targets, exKidsG] using this
 
-/-- A history with a shared, repeated item: `kids = [1, 2, 1]` (values 3, 5), read,
-one occurrence of node 1 removed in place, node 1 bumped to 4. -/
-def exKidsFinal : St Int :=
-  run exKids { heap := fun i => if i = 1 then { value := 3 } else if i = 2 then { value := 5 } else {} }
-    [.change ⟨0, .kids [1, 2, 1], false⟩, .read, .change ⟨0, .kids [2, 1], true⟩,
-     .change ⟨1, .scalar .value 4, false⟩]
-
 example :
     exKidsFinal.cache = some 9 ∧ exKidsFinal.calls = 3 ∧ (readProp exKids exKidsFinal).1 = .ok 9
       ∧ exKidsFinal.notes.map (fun n => (n.old, n.new))
           = [(.undefined, 11), (.val 11, 8), (.val 8, 9)] := by
   decide
+
+/-- `Quiet` is satisfiable on a segment that does change the heap: reads, a listener change and a
+change of an unmatched object; and a relevant change that alters `g` exists. -/
+example : Quiet exKids exKidsFinal [.read, .change ⟨3, .scalar .value 7, false⟩, .attach, .read,
+    .change ⟨0, .scalar .aux 3, false⟩, .read] := by decide
+example : exKidsG (apply ⟨1, .scalar .value 6, false⟩ exKidsFinal.heap) ≠ exKidsG exKidsFinal.heap := by decide
+example : Inv exKids exKidsG exKidsFinal := by decide
+/-- a restore that passes through an intermediate cached value -/
+example : (restore exKids (fun i => if i = 1 then { value := 3 } else {})
+    (rootWrites { value := 1, kids := [1, 1] })).notes.map (fun n => (n.old, n.new)) = [(.undefined, 6)] := by decide
 
 end TraitsVerif.Props.C12
